@@ -336,6 +336,30 @@ func runC13(c *Ctx) {
 					}
 				case *ssa.Call:
 					g := x.Call.StaticCallee()
+					if g != nil && g != f && load.RelPkg(g) == "endorse" && g.Blocks != nil {
+						// a helper that copies the new entry's digest/path into another entry is a placement
+						passesEntry := false
+						for _, a := range x.Call.Args {
+							if a == ssa.Value(entryP) {
+								passesEntry = true
+							}
+						}
+						if passesEntry {
+							for _, gb := range g.Blocks {
+								for _, gi := range gb.Instrs {
+									if st, ok := gi.(*ssa.Store); ok {
+										if fa, ok := st.Addr.(*ssa.FieldAddr); ok {
+											if pt, ok := fa.X.Type().Underlying().(*types.Pointer); ok && namedIs(pt.Elem(), repoPath("proto/releases"), "VMEndorsementMap_Entry") {
+												if n := flow.FieldName(fa); n == "Digest" || n == "Path" {
+													placements = append(placements, x)
+												}
+											}
+										}
+									}
+								}
+							}
+						}
+					}
 					if g == nil || g == f || !load.FuncInRepo(g) || g.Signature.Results().Len() != 1 || !isEntryList(g.Signature.Results().At(0).Type()) {
 						continue
 					}
@@ -401,45 +425,101 @@ func runC13(c *Ctx) {
 	c.S.Floor("R4", "manifest merge functions in package endorse", 1, nMerge)
 
 	// ---- R3b: marshalled manifest map is the parsed object ----
-	for _, f := range c.P.RepoFunctions() {
-		if load.RelPkg(f) != "endorse" || c.isTestFunc(f) {
-			continue
-		}
-		var parsed, marshalled []ssa.Value
-		var mpos ssa.CallInstruction
-		for _, call := range callsIn(f, func(ssa.CallInstruction) bool { return true }) {
-			cal := call.Common().StaticCallee()
-			if cal == nil {
-				continue
+	// package-wide: the object handed to prototext.Marshal for the manifest must be (an alias of) the
+	// object the manifest was parsed into; aliases follow helper results (a reader that returns the
+	// parsed map) and helper parameters (a writer that receives it).
+	{
+		mapType := func(v ssa.Value) bool { return typeMentions(v, repoPath("proto/releases"), "VMEndorsementMap") }
+		var efns []*ssa.Function
+		for _, f := range c.P.RepoFunctions() {
+			if load.RelPkg(f) == "endorse" && !c.isTestFunc(f) && f.Blocks != nil {
+				efns = append(efns, f)
 			}
-			switch cal.String() {
-			case "google.golang.org/protobuf/encoding/prototext.Unmarshal":
-				if len(call.Common().Args) == 2 && typeMentions(call.Common().Args[1], repoPath("proto/releases"), "VMEndorsementMap") {
-					parsed = append(parsed, unwrapIface(call.Common().Args[1]))
+		}
+		parsedObj := map[ssa.Value]bool{}
+		returnsParsed := map[*ssa.Function]bool{}
+		for _, f := range efns {
+			for _, call := range callsIn(f, func(call ssa.CallInstruction) bool {
+				return calleeIs(call, "google.golang.org/protobuf/encoding/prototext.Unmarshal") && len(call.Common().Args) == 2 && mapType(call.Common().Args[1])
+			}) {
+				parsedObj[unwrapIface(call.Common().Args[1])] = true
+			}
+		}
+		// fixpoint over helpers returning a parsed object
+		for changed := true; changed; {
+			changed = false
+			for _, f := range efns {
+				if returnsParsed[f] {
+					continue
 				}
-			case "google.golang.org/protobuf/encoding/prototext.Marshal":
-				if len(call.Common().Args) == 1 && typeMentions(call.Common().Args[0], repoPath("proto/releases"), "VMEndorsementMap") {
-					marshalled = append(marshalled, unwrapIface(call.Common().Args[0]))
-					mpos = call
+				for _, b := range f.Blocks {
+					if ret, ok := b.Instrs[len(b.Instrs)-1].(*ssa.Return); ok {
+						for _, rv := range ret.Results {
+							if parsedObj[rv] {
+								returnsParsed[f] = true
+								changed = true
+							}
+						}
+					}
+				}
+			}
+			for _, f := range efns {
+				for _, call := range callsIn(f, func(call ssa.CallInstruction) bool { return returnsParsed[call.Common().StaticCallee()] }) {
+					cv := call.Value()
+					if cv == nil {
+						continue
+					}
+					cands := []ssa.Value{cv}
+					for _, r := range nonDebugRefs(cv) {
+						if ex, ok := r.(*ssa.Extract); ok {
+							cands = append(cands, ex)
+						}
+					}
+					for _, v := range cands {
+						if mapType(v) && !parsedObj[v] {
+							parsedObj[v] = true
+							changed = true
+						}
+					}
 				}
 			}
 		}
-		if len(marshalled) == 0 {
-			continue
-		}
-		ok := len(parsed) > 0
-		for _, m := range marshalled {
-			same := false
-			for _, p := range parsed {
-				if p == m {
-					same = true
+		var isParsed func(v ssa.Value, depth int) bool
+		isParsed = func(v ssa.Value, depth int) bool {
+			if parsedObj[v] {
+				return true
+			}
+			prm, ok := v.(*ssa.Parameter)
+			if !ok || depth > 3 {
+				return false
+			}
+			idx := -1
+			for i, q := range prm.Parent().Params {
+				if q == prm {
+					idx = i
 				}
 			}
-			if !same {
-				ok = false
+			sites := 0
+			for _, f := range efns {
+				for _, call := range callsIn(f, func(call ssa.CallInstruction) bool { return call.Common().StaticCallee() == prm.Parent() }) {
+					sites++
+					if idx < 0 || idx >= len(call.Common().Args) || !isParsed(call.Common().Args[idx], depth+1) {
+						return false
+					}
+				}
+			}
+			return sites > 0
+		}
+		nM := 0
+		for _, f := range efns {
+			for _, call := range callsIn(f, func(call ssa.CallInstruction) bool {
+				return calleeIs(call, "google.golang.org/protobuf/encoding/prototext.Marshal") && len(call.Common().Args) == 1 && mapType(call.Common().Args[0])
+			}) {
+				nM++
+				c.S.Check(isParsed(unwrapIface(call.Common().Args[0]), 0), "R3b", load.FuncName(f)+":manifest object", c.pos(call.Pos()), "the map marshalled into the manifest is the object the current manifest was parsed into", "the manifest written is not the marshalling of the map parsed from this attempt's manifest")
 			}
 		}
-		c.S.Check(ok, "R3b", load.FuncName(f)+":manifest object", c.pos(mpos.Pos()), "the map marshalled into the manifest is the object the current manifest was parsed into", "the manifest written is not the marshalling of the map parsed from this attempt's manifest")
+		c.S.Floor("R3b", "manifest marshalling sites in package endorse", 1, nM)
 	}
 }
 
